@@ -4,9 +4,10 @@ import ZV.Model.Wire
     x509/revocation/google     CRLSet   : Parse (getHeader + block loop), (*CRLSet).Check
     x509/revocation/mozilla    OneCRL   : (*Entry).UnmarshalJSON mapping, Parse grouping, (*OneCRL).Check
     x509/revocation/microsoft  SST      : parse (container loop + grouping), Check   (code as fixed for D4)
-  Strings are byte lists (`Str`).  encoding/json, base64, ASN.1 name decoding + pkix.Name.String and
-  x509.ParseCertificate are NOT modelled: their results arrive as decoded records (`Hdr`, `Rec`, the
-  certificate table) supplied with each case by the harness, which obtains them from the same library calls.
+  Strings are byte lists (`Str`).  base64 (StdEncoding.DecodeString, including the bytes it returns next to an
+  error) IS modelled.  encoding/json, ASN.1 name decoding + pkix.Name.String and x509.ParseCertificate are NOT
+  modelled: their results arrive as decoded records (`Hdr`, `Rec`, the name table, the certificate table) supplied
+  with each case by the harness, which obtains them from the same library calls.
 -/
 namespace ZV.C15
 open ZV.Wire
@@ -128,20 +129,97 @@ def csEncode (hdrBytes : Bytes) (blocks : List (Bytes × List Nat)) : Res Bytes 
 
 /-! ## OneCRL (mozilla) -/
 
-inductive Dec where
-  | bad
-  | good (b : Bytes)
-  deriving Repr, DecidableEq
+/-! ### `base64.StdEncoding.DecodeString` (Go 1.23 encoding/base64: `Decode` + `decodeQuantum`, padded, non-strict)
 
-/-- one element of the JSON `data` array after `json.Unmarshal` into `record` and the library decoders -/
+  The fast paths of `Decode` (8 / 4 alphabet characters at a time) compute what `decodeQuantum` computes on the same
+  characters and fall back to it otherwise, so the model is the quantum loop alone, written as ONE structural recursion
+  over the input: `acc` = the 6-bit values of the current quantum (`j = acc.length`), `out` = bytes written so far
+  (`dst[:n]`).  Result: `(dbuf[:n], err != nil)` — on an error the bytes decoded BEFORE the failing quantum are
+  still returned (and the quantum itself when the error is "trailing garbage after the padding"); mozilla's
+  serial-number field uses them (`serialNumberBytes, _ := …DecodeString`). -/
+
+/-- `enc.decodeMap` of StdEncoding (`none` = 0xff) -/
+def b64Val (c : UInt8) : Option Nat :=
+  if 65 ≤ c.toNat ∧ c.toNat ≤ 90 then some (c.toNat - 65)
+  else if 97 ≤ c.toNat ∧ c.toNat ≤ 122 then some (c.toNat - 71)
+  else if 48 ≤ c.toNat ∧ c.toNat ≤ 57 then some (c.toNat + 4)
+  else if c.toNat = 43 then some 62
+  else if c.toNat = 47 then some 63
+  else none
+
+/-- `val := dbuf[0]<<18 | dbuf[1]<<12 | dbuf[2]<<6 | dbuf[3]` (unfilled positions are 0; the values are < 64) -/
+def qVal : List Nat → Nat
+  | [a, b] => a * 262144 + b * 4096
+  | [a, b, c] => a * 262144 + b * 4096 + c * 64
+  | [a, b, c, d] => a * 262144 + b * 4096 + c * 64 + d
+  | _ => 0
+
+/-- the `dlen - 1` bytes a quantum of `dlen = acc.length` characters yields -/
+def qBytes (acc : List Nat) : Bytes :=
+  [UInt8.ofNat (qVal acc / 65536), UInt8.ofNat (qVal acc / 256), UInt8.ofNat (qVal acc)].take (acc.length - 1)
+
+def isNL (c : UInt8) : Bool := c = 10 || c = 13
+
+/-- `for si < len(src) && (src[si] == '\n' || src[si] == '\r') { si++ }` -/
+def skipNL : Str → Str
+  | [] => []
+  | c :: rest => if isNL c then skipNL rest else c :: rest
+
+def b64Go (src : Str) (acc : List Nat) (out : Bytes) : Bytes × Bool :=
+  match src with
+  | [] => if acc.length = 0 then (out, false)       -- j == 0: return si, 0, nil
+          else (out, true)                          -- j == 1 or padded encoding: CorruptInputError
+  | c :: rest =>
+    match b64Val c with
+    | some v =>
+      if acc.length = 3 then b64Go rest [] (out ++ qBytes (acc ++ [v]))     -- dlen = 4
+      else b64Go rest (acc ++ [v]) out
+    | none =>
+      if isNL c then b64Go rest acc out                                     -- j--; continue
+      else if c ≠ 61 then (out, true)                                       -- not '='
+      else if acc.length < 2 then (out, true)                               -- incorrect padding
+      else if acc.length = 2 then                                           -- "==" expected
+        match skipNL rest with
+        | [] => (out, true)                                                 -- not enough padding
+        | c2 :: rest2 =>
+          if c2 ≠ 61 then (out, true)
+          else
+            match skipNL rest2 with
+            | [] => (out ++ qBytes acc, false)
+            | _ :: _ => (out ++ qBytes acc, true)                           -- trailing garbage: bytes written AND error
+      else
+        match skipNL rest with
+        | [] => (out ++ qBytes acc, false)
+        | _ :: _ => (out ++ qBytes acc, true)
+
+/-- base64.StdEncoding.DecodeString: (bytes returned, err != nil) -/
+def b64Decode (s : Str) : Bytes × Bool := b64Go s [] []
+
+/-- the alphabet (`encodeStd`) -/
+def b64Char (v : Nat) : UInt8 :=
+  if v < 26 then UInt8.ofNat (65 + v)
+  else if v < 52 then UInt8.ofNat (71 + v)
+  else if v < 62 then UInt8.ofNat (v - 4)
+  else if v = 62 then 43
+  else 47
+
+/-- base64.StdEncoding.EncodeToString (used by the harness encoder and the round-trip theorems) -/
+def b64Encode : Bytes → Str
+  | [] => []
+  | [a] => [b64Char (a.toNat / 4), b64Char (a.toNat % 4 * 16), 61, 61]
+  | [a, b] => [b64Char (a.toNat / 4), b64Char (a.toNat % 4 * 16 + b.toNat / 16), b64Char (b.toNat % 16 * 4), 61]
+  | a :: b :: c :: rest =>
+    b64Char (a.toNat / 4) :: b64Char (a.toNat % 4 * 16 + b.toNat / 16) :: b64Char (b.toNat % 16 * 4 + c.toNat / 64) ::
+      b64Char (c.toNat % 64) :: b64Encode rest
+
+/-- one element of the JSON `data` array after `json.Unmarshal` into `record` (the JSON layer is not modelled:
+    the four string fields arrive as the byte strings encoding/json produced) -/
 structure Rec where
   isNull : Bool
-  subjNonEmpty : Bool      -- aux.Subject != ""
-  pkhNonEmpty : Bool       -- aux.PubKeyHash != ""
-  subjDec : Dec            -- decodePkixName(aux.Subject): the raw DER bytes, or an error
-  pkhDec : Dec             -- base64 of aux.PubKeyHash
-  serial : Nat             -- SetBytes(base64(aux.SerialNumber)) with the error ignored
-  issuerDec : Dec          -- decodePkixName(aux.IssuerName) then Name.String(), or an error
+  subject : Str            -- aux.Subject
+  pubKeyHash : Str         -- aux.PubKeyHash
+  serialNumber : Str       -- aux.SerialNumber
+  issuerName : Str         -- aux.IssuerName
   deriving Repr, DecidableEq
 
 inductive OEntry where
@@ -149,32 +227,45 @@ inductive OEntry where
   | serial (issuer : Str) (serial : Int)
   deriving Repr, DecidableEq
 
-/-- (*Entry).UnmarshalJSON (after the fix of D5: a JSON null is an error, it used to dereference nil) -/
-def unmarshalEntry (r : Rec) : Res OEntry :=
-  if r.isNull then .err
-  else if r.subjNonEmpty && r.pkhNonEmpty then
-    match r.subjDec with
-    | .bad => .err
-    | .good raw =>
-      match r.pkhDec with
-      | .bad => .err
-      | .good pk => .ok (.blocked raw pk)
+/-- decodePkixName: base64, then asn1.Unmarshal into an RDNSequence + FillFromRDNSequence (NOT modelled: `ntbl raw`
+    = `some (Name.String())` when the DER decodes, supplied with the case).  Result: (Name.String(), raw bytes). -/
+def decodePkixName (name : Str) (ntbl : Bytes → Option Str) : Res (Str × Bytes) :=
+  if (b64Decode name).2 then .err
   else
-    match r.issuerDec with
-    | .bad => .err
-    | .good iss => .ok (.serial iss (Int.ofNat r.serial))
+    match ntbl (b64Decode name).1 with
+    | none => .err
+    | some s => .ok (s, (b64Decode name).1)
+
+/-- (*Entry).UnmarshalJSON (after the fix of D5: a JSON null is an error, it used to dereference nil) -/
+def unmarshalEntry (r : Rec) (ntbl : Bytes → Option Str) : Res OEntry :=
+  if r.isNull then .err
+  else if !r.subject.isEmpty && !r.pubKeyHash.isEmpty then
+    match decodePkixName r.subject ntbl with
+    | .ok (_, raw) =>
+      if (b64Decode r.pubKeyHash).2 then .err
+      else .ok (.blocked raw (b64Decode r.pubKeyHash).1)
+    | .err => .err
+    | .panic => .panic
+  else
+    -- `serialNumberBytes, _ := base64.StdEncoding.DecodeString(aux.SerialNumber)`: the error is ignored, the
+    -- bytes decoded before it are used
+    match decodePkixName r.issuerName ntbl with
+    | .ok (iss, _) => .ok (.serial iss (Int.ofNat (beVal (b64Decode r.serialNumber).1)))
+    | .err => .err
+    | .panic => .panic
 
 structure OneCRL where
   blocked : List (Bytes × Bytes)
   issuers : List (Str × List Int)
   deriving Repr, DecidableEq
 
-def unmarshalAll : List Rec → Res (List OEntry)
+def unmarshalAll (recs : List Rec) (ntbl : Bytes → Option Str) : Res (List OEntry) :=
+  match recs with
   | [] => .ok []
   | r :: rest =>
-    match unmarshalEntry r with
+    match unmarshalEntry r ntbl with
     | .ok e =>
-      match unmarshalAll rest with
+      match unmarshalAll rest ntbl with
       | .ok es => .ok (e :: es)
       | .err => .err
       | .panic => .panic
@@ -188,8 +279,8 @@ def ocGroup (es : List OEntry) (acc : OneCRL) : OneCRL :=
   | .blocked raw pk :: rest => ocGroup rest { acc with blocked := acc.blocked ++ [(raw, pk)] }
   | .serial iss s :: rest => ocGroup rest { acc with issuers := madd acc.issuers iss s }
 
-def ocParse (recs : List Rec) : Res OneCRL :=
-  match unmarshalAll recs with
+def ocParse (recs : List Rec) (ntbl : Bytes → Option Str) : Res OneCRL :=
+  match unmarshalAll recs ntbl with
   | .ok es => .ok (ocGroup es ⟨[], []⟩)
   | .err => .err
   | .panic => .panic
@@ -289,5 +380,25 @@ def sstEncode (certs : List Bytes) : Bytes :=
   leBytes 4 0 ++ certMagic ++
     (certs.map (fun c => leBytes 4 32 ++ leBytes 4 1 ++ leBytes 4 c.length ++ c)).flatten ++
     leBytes 4 0 ++ leBytes 8 0
+
+/-- one element of a serialized store: SerializedPropertyEntry (id ∉ {0, 32}) or SerializedCertificateEntry (id = 32) -/
+structure SstElem where
+  id : Nat
+  format : Nat
+  value : Bytes
+  deriving Repr, DecidableEq
+
+def sstElemBytes (e : SstElem) : Bytes :=
+  leBytes 4 e.id ++ (leBytes 4 e.format ++ (leBytes 4 e.value.length ++ e.value))
+
+/-- a general well-formed store: header, property and certificate elements in any order, end marker (id 0) and
+    whatever follows it (the 8-byte marker value; the parser never reads it) -/
+def sstEncodeElems (es : List SstElem) (tail : Bytes) : Bytes :=
+  leBytes 4 0 ++ (certMagic ++ ((es.map sstElemBytes).flatten ++ (leBytes 4 0 ++ tail)))
+
+/-- the certificate blobs of a store, in order -/
+def sstCerts : List SstElem → List Bytes
+  | [] => []
+  | e :: rest => if e.id = 32 then e.value :: sstCerts rest else sstCerts rest
 
 end ZV.C15
